@@ -442,6 +442,14 @@ def stripped_after_conversion(ctx):
                 """None: converted on every path; "?": bound by a loop / with / parameter (not judged); else the offending source"""
                 if conv(e) or norm(e) in STRIP_OK:
                     return None
+                if isinstance(e, ast.Attribute) and e.attr == "coherence_length":
+                    # `<d>.coherence_length` with <d> a local bound to the solution's device (whatever the local is called)
+                    try:
+                        from ..dataflow import expanded_text as _et
+                        if f"{_et(fn, e.value)}.coherence_length" in STRIP_OK:
+                            return None
+                    except Exception:
+                        pass
                 if isinstance(e, ast.Subscript):
                     return unconverted(e.value, at, trail)
                 if isinstance(e, ast.IfExp):
